@@ -27,6 +27,10 @@ type c01Case struct {
 	Init   int    `json:"init"`
 	Path   []dbOp `json:"path"`
 	Ops    []dbOp `json:"ops"` // successors to try
+	// CheckAll: compare all reads with the reference after every operation of the program, not only after the last
+	CheckAll bool `json:"check_all,omitempty"`
+	// Legacy > 0: the directory starts with legacy fixture table Legacy-1 as its oldest table
+	Legacy int `json:"legacy,omitempty"`
 }
 
 const giB = 1024 * 1024 * 1024
@@ -39,6 +43,8 @@ func c01Cfgs(flavor, tier string) []dbCfg {
 			{Mem: giB, Thresh: 1, MaxSize: 200, Ratio: 0.5, RBuf: 4096, WBuf: 4096},
 			{Mem: giB, Thresh: 0, MaxSize: 5 * giB, Ratio: 1.0, RBuf: 4096, WBuf: 4096},
 			{Mem: giB, Thresh: 1, MaxSize: 1, Ratio: 0.5, RBuf: 4096, WBuf: 4096},
+			// no size-based selection at all and no minimum count: tables are picked by tombstone ratio only
+			{Mem: giB, Thresh: 0, MaxSize: 1, Ratio: 0.5, RBuf: 4096, WBuf: 4096},
 		}
 		if tier == "thorough" {
 			c = append(c, dbCfg{Mem: giB, Thresh: 2, MaxSize: 200, Ratio: 1.0, RBuf: 7, WBuf: 7},
@@ -171,14 +177,18 @@ func (c c01) Run(ctx *core.Ctx) error {
 	ctx.Ev.Bounds["depth_completed"] = completed
 	ctx.Ev.Bounds["max_depth"] = maxDepth
 	if flavor == "C06" {
-		c.lineages(ctx, cfgs)
+		c.lineages(ctx, cfgs, true)
+	} else {
+		// the map clause over deep compaction histories: the interleaved flush/compaction words of C06 (under its
+		// selection-oriented configurations), reads compared with the reference after every step
+		c.lineages(ctx, c01Cfgs("C06", ctx.Tier), false)
 	}
 	return nil
 }
 
 // lineages: beyond the BFS depth, every table lineage of k tables (one operation+flush per table) is built directly
 // and compacted: cycle, second cycle, restart - each with the compaction clauses checked around every cycle.
-func (c c01) lineages(ctx *core.Ctx, cfgs []dbCfg) {
+func (c c01) lineages(ctx *core.Ctx, cfgs []dbCfg, all bool) {
 	k := 5
 	ops := []dbOp{{Op: "putrot", K: 0, V: 0}, {Op: "putrot", K: 0, V: 1}, {Op: "delrot", K: 0}}
 	if ctx.Tier == "thorough" {
@@ -201,6 +211,9 @@ func (c c01) lineages(ctx *core.Ctx, cfgs []dbCfg) {
 	}
 	rec()
 	var cases []json.RawMessage
+	if !all {
+		lins = nil
+	}
 	for _, l := range lins {
 		for ci := range cfgs {
 			cmp := dbOp{Op: "cmp"}
@@ -209,9 +222,73 @@ func (c c01) lineages(ctx *core.Ctx, cfgs []dbCfg) {
 			cases = append(cases, core.J(c01Case{Flavor: "C06", Init: ci, Path: append(append([]dbOp{}, l...), cmp), Ops: []dbOp{cmp, {Op: "reopen", C: ci}}}))
 		}
 	}
+	// interleaved histories: every word T^i Compact T^j Compact [T^k Compact] Reopen with at most nt single-key tables
+	// in total, each T one of {Put(a|b, x|Y300), Delete(a|b)} followed by a flush; reads are compared with the reference
+	// after every step (and around every cycle)
+	nt, nc := 4, 2
+	if ctx.Tier == "thorough" {
+		nt, nc = 5, 3
+	}
+	var topts []dbOp
+	for kk := 0; kk < 2; kk++ {
+		topts = append(topts, dbOp{Op: "putrot", K: kk, V: 0}, dbOp{Op: "putrot", K: kk, V: 1}, dbOp{Op: "delrot", K: kk})
+	}
+	nwords := 0
+	var words func(cur []dbOp, tUsed, cUsed int)
+	words = func(cur []dbOp, tUsed, cUsed int) {
+		if cUsed >= 2 && cur[len(cur)-1].Op == "cmp" {
+			for ci := range cfgs {
+				if ctx.Tier != "thorough" && (ci == 2 || ci == 3) {
+					continue // quick: the three configurations under which a cycle can exclude the oldest table
+				}
+				prog := append(append([]dbOp{}, cur...), dbOp{Op: "reopen", C: ci})
+				cases = append(cases, core.J(c01Case{Flavor: "C06", Init: ci, Path: prog[:len(prog)-1], Ops: prog[len(prog)-1:], CheckAll: true}))
+			}
+			nwords++
+		}
+		if tUsed < nt {
+			for _, o := range topts {
+				words(append(cur, o), tUsed+1, cUsed)
+			}
+		}
+		if cUsed < nc && len(cur) > 0 && cur[len(cur)-1].Op != "cmp" {
+			words(append(cur, dbOp{Op: "cmp"}), tUsed, cUsed+1)
+		}
+	}
+	words(nil, 0, 0)
+	ctx.Ev.Bounds["interleaved_histories"] = fmt.Sprintf("%d words with <= %d tables and 2..%d compaction cycles x %d configurations", nwords, nt, nc, map[bool]int{true: len(cfgs), false: 3}[ctx.Tier == "thorough"])
+	// directories that start with a table written by an earlier version of the library
+	nleg := 0
+	lopts := []dbOp{{Op: "putrot", K: 3, V: 0}, {Op: "delrot", K: 3}, {Op: "putrot", K: 0, V: 0}}
+	for fi, fx := range legacyTables() {
+		if !all {
+			break
+		}
+		if len(fx.KVs) != 7 {
+			continue // the fixture with an empty value: SimpleDB reserves the empty value for deletions
+		}
+		var lw [][]dbOp
+		lw = append(lw, []dbOp{})
+		for _, o1 := range lopts {
+			lw = append(lw, []dbOp{o1})
+			for _, o2 := range lopts {
+				lw = append(lw, []dbOp{o1, o2})
+			}
+		}
+		for _, wd := range lw {
+			for ci := range cfgs {
+				prog := append(append([]dbOp{}, wd...), dbOp{Op: "cmp"}, dbOp{Op: "cmp"}, dbOp{Op: "reopen", C: ci})
+				cases = append(cases, core.J(c01Case{Flavor: "C06", Init: ci, Path: prog[:len(prog)-1], Ops: prog[len(prog)-1:], CheckAll: true, Legacy: fi + 1}))
+				nleg++
+			}
+		}
+	}
+	ctx.Ev.Bounds["legacy_lineages"] = fmt.Sprintf("%d sessions: each 7-key legacy fixture table as the oldest table, then every word of <= 2 steps over {Put(L3,x), Delete(L3), Put(a,x)}+flush, Compact, Compact, Reopen", nleg)
 	ctx.Ev.Bounds["lineage_tables"] = k
 	ctx.Ev.Bounds["lineages"] = len(lins)
-	ctx.Ev.Notes = append(ctx.Ev.Notes, fmt.Sprintf("lineage enumeration: every sequence of %d operation+flush steps over %d operations (one table each) x %d configurations, followed by Compact, by Compact Compact and by Compact Reopen", k, len(ops), len(cfgs)))
+	if all {
+		ctx.Ev.Notes = append(ctx.Ev.Notes, fmt.Sprintf("lineage enumeration: every sequence of %d operation+flush steps over %d operations (one table each) x %d configurations, followed by Compact, by Compact Compact and by Compact Reopen", k, len(ops), len(cfgs)))
+	}
 	rs := ctx.Pmap(cases)
 	ctx.Fold(rs, cases)
 	for i, r := range rs {
@@ -252,7 +329,7 @@ func (c c01) runSession(w *core.WCtx, cfgs []dbCfg, cs c01Case, prog []dbOp, siz
 	viol := func(sig, f string, a ...any) {
 		if len(r.Viol) < 10 {
 			r.Viol = append(r.Viol, core.Violation{Sig: sig, Desc: fmt.Sprintf("[%s] (cfg %+v): %s", dbProgStr(cs.Init, prog), cfgs[cs.Init], fmt.Sprintf(f, a...)),
-				Case: core.J(c01Case{Flavor: cs.Flavor, Init: cs.Init, Path: prog[:len(prog)-1], Ops: prog[len(prog)-1:]})})
+				Case: core.J(c01Case{Flavor: cs.Flavor, Init: cs.Init, Path: prog[:len(prog)-1], Ops: prog[len(prog)-1:], CheckAll: cs.CheckAll, Legacy: cs.Legacy})})
 		}
 	}
 	defer func() {
@@ -261,7 +338,11 @@ func (c c01) runSession(w *core.WCtx, cfgs []dbCfg, cs c01Case, prog []dbOp, siz
 			key = ""
 		}
 	}()
-	s := newSession(dir, cfgs, cs.Init, r, viol)
+	var seed []legacyFixture
+	if cs.Legacy > 0 {
+		seed = []legacyFixture{legacyTables()[cs.Legacy-1]}
+	}
+	s := newSession(dir, cfgs, cs.Init, r, viol, seed...)
 	if s == nil {
 		return ""
 	}
@@ -283,7 +364,7 @@ func (c c01) runSession(w *core.WCtx, cfgs []dbCfg, cs c01Case, prog []dbOp, siz
 		if s.walRecordsAtClose {
 			d13 = true
 		}
-		if last || len(r.Viol) > nv {
+		if last || cs.CheckAll || len(r.Viol) > nv {
 			s.check(i, op, func(k string) string {
 				if d13 {
 					return "D13-leftover-wal-replayed"
